@@ -127,6 +127,10 @@ def gen_cases(tier):
         if c["pos"] == 1 and c["opt"] in (0, 1, 3):
             for ci in range(1, len(CTX)):
                 cases.append(dict(c, ctx=ci))
+    # the column in front of the type carries a CHECK clause (its '<' / '>' are comparison operators, the type's are brackets)
+    for c in list(cases):
+        if c.get("kind") in ("angle", "sized") and "ctx" not in c and c["pos"] >= 1 and c["opt"] in (0, 1) and c.get("sp", "none") in ("none", "comma"):
+            cases.append(dict(c, nbchk=True))
     # two parameterised types side by side
     for i in range(len(PAIR)):
         for j in range(len(PAIR)):
@@ -158,6 +162,8 @@ def build(case):
         tt = SIZED[case["si"]][0]
     cols = ["c0 int", "c1 varchar(5)", "c2 int"]
     cols[case["pos"]] = "c%d %s%s" % (case["pos"], tt, OPTS[case["opt"]])
+    if case.get("nbchk"):
+        cols[0] = "c0 int CHECK (c0 > 0 AND c0 < 9)"
     return CTX[case.get("ctx", 0)] + "CREATE TABLE t (" + ", ".join(cols) + ");", tt
 
 
